@@ -545,6 +545,18 @@ def _to_int(v):
         m = re.match(r"^'(.)'$", v)
         if m:
             return ord(m.group(1))
+        m = re.match(r"^'\\(.+)'$", v)          # cbmc prints '\r', '\n', '\0', '\x7f', '\177'
+        if m:
+            e = m.group(1)
+            simple = {"n": 10, "r": 13, "t": 9, "0": 0, "a": 7, "b": 8, "f": 12, "v": 11, "\\": 92, "'": 39, '"': 34}
+            if e in simple:
+                return simple[e]
+            try:
+                if e[0] == "x":
+                    return int(e[1:], 16)
+                return int(e, 8)
+            except ValueError:
+                return None
     if isinstance(v, (int, float)):
         return int(v)
     return None
